@@ -83,8 +83,10 @@ def parse_trace(text):
     return calls
 
 def run_c(k2, dbdir, opts, ops, timeout=600, keep=False):
-    if os.path.exists(dbdir) and not keep:
-        shutil.rmtree(dbdir)
+    if not keep:
+        import glob
+        if os.path.exists(dbdir): shutil.rmtree(dbdir)
+        for d in glob.glob(dbdir + '.*'): shutil.rmtree(d, ignore_errors=True)       # stale backups / copies of an earlier run under this name
     args = [k2, dbdir] + ['%s=%s' % kv for kv in sorted(opts.items())]
     r = subprocess.run(args, input=('\n'.join(ops) + '\n').encode(), capture_output=True, timeout=timeout)
     return r.returncode, r.stdout.decode('latin1'), r.stderr.decode('latin1')
